@@ -84,7 +84,8 @@ def model_witness(ctx, model, h, extra):
     w = dict(flavour=cfg.flavour, policy=cfg.policy, limit=ev(cfg.limit), ttl=ev(cfg.ttl), max_memory=ev(cfg.mem), frequency_weight=cfg.fw,
              now0=ev(h.now0), entries=[dict(key=ev(e.key), val=ev(e.val), birth=ev(e.birth), hits=ev(e.hits), size=ev(e.size)) for e in h.pre],
              clock=[ev(t) for t in (ctx.sys_vars if cfg.flavour == 'A' else ctx.now_vars)],
-             rand=[ev(e[2]) for e in ctx.events if e[0] == 'rand'])
+             rand=[ev(e[2]) for e in ctx.events if e[0] == 'rand'],
+             handle_delay=(ev(h.now0) - ev(h.t_constructed)) if getattr(h, 't_constructed', None) is not None and isinstance(ev(h.now0), (int, float)) and isinstance(ev(h.t_constructed), (int, float)) else 0)
     for k, v in extra.items(): w[k] = ev(v) if not isinstance(v, (str, list, dict)) else v
     return w
 
@@ -117,13 +118,18 @@ def nice_model(ctx, f, h, model):
         soft.append(e.hits <= 50)
     if h.cfg.ttl is not None: soft.append(h.cfg.ttl <= 1000)
     # natively an operation takes microseconds: prefer witnesses in which no time passes during the operation
-    for t in (ctx.sys_vars if A else ctx.now_vars)[1:]: soft.append(t == h.now0)
+    clk = list(ctx.sys_vars if A else ctx.now_vars)
+    iop = next((i for i, t in enumerate(clk) if t is h.now0), 0)
+    for t in clk[iop + 1:]: soft.append(t == h.now0)
+    # ... and, if possible, one in which the handle is used at once after it was built
+    nodelay = [t == h.now0 for t in clk[:iop]]
+    if A and getattr(h, 't_constructed', None) is not None: nodelay.append(h.now0 - h.t_constructed <= 2)
     soft2 = []
     if not A and not h.cfg.real:
         for i, e in enumerate(h.pre):
             q = z3.Int('nice_q%d' % i); r = z3.Int('nice_r%d' % i)
             soft2 += [h.now0 - e.birth == q * NS + r, r >= 300000000, r <= 700000000]
-    for extra in (hard + soft + soft2, hard + soft, hard):
+    for extra in (hard + soft + soft2 + nodelay, hard + soft + nodelay, hard + soft + soft2 + [h.now0 - t <= (2 if A else 2 * NS) for t in clk[:iop]], hard + soft + soft2, hard + soft, hard):
         m = attempt(extra)
         if m is not None and m != 'unknown': return m
         if extra is hard or (not soft and not soft2):
